@@ -282,6 +282,9 @@ func (m *ChMask) UnmarshalBinary(data []byte) error {
 		return errors.New("lorawan: 2 bytes of data are expected")
 	}
 
+	// reset the mask (in case m has been used before)
+	*m = ChMask{}
+
 	n := binary.LittleEndian.Uint16(data)
 	for i := uint(0); i < 16; i++ {
 		if n&(1<<i) != 0 {
